@@ -1848,4 +1848,109 @@ theorem run_sim (P : Prog) : ∀ (evs : List Ev) (c d : Cfg), Sim P c d → InvP
     simp only [unpaused, run_append]
     exact ih _ _ (step_sim P c d e h hinv hI ha.1 hf.1) (step_invP P c e hinv) (step_inv P c e hI) ha.2 hf.2
 
+/-! ### what the simulation gives -/
+
+/-- when the run with pauses has terminated, so has the reference run, in the same state and with the same shared fields -/
+theorem Sim.of_terminal {P : Prog} {c d : Cfg} (h : Sim P c d) (ht : terminal c.st.label = true) : d.st = c.st ∧ sh d = sh c := by
+  have nw : ∀ {x y : Cfg}, Core x y → terminal x.st.label = true → y.st = x.st := by
+    intro x y hc hx
+    rcases hc.st with ⟨heq, _⟩ | ⟨fn, wf, aw, wf', w, h1, _⟩
+    · exact heq.symm
+    · rw [h1] at hx; simp [SObj.label, PMF.terminal, allowed] at hx
+  rcases h with h | h | h
+  · exact ⟨nw h.core ht, h.core.sh.symm⟩
+  · obtain ⟨fn, wf, aw, wf', k, hst, _⟩ := h.wait
+    rw [hst] at ht; simp [SObj.label, PMF.terminal, allowed] at ht
+  · obtain ⟨_, d0, n, _, hD, hd, hm⟩ := h
+    obtain ⟨n', rfl⟩ : ∃ n', n = n' + 1 := by
+      cases n with
+      | zero => simp [loopDone] at hD
+      | succ n' => exact ⟨n', rfl⟩
+    have h0 := nw hm.core ht
+    rw [hd, loopHead_term P n' d0 hm.ncd (by rw [h0]; exact ht)]
+    exact ⟨h0, hm.core.sh.symm⟩
+
+/-- at a quiet moment both runs are at the same point: same state object up to the index of the wait future, same shared
+fields (trace, context, process future, logs, scheduled callbacks, stepping flag, …) -/
+theorem Sim.at_quiet {P : Prog} {c d : Cfg} (h : Sim P c d) (hq : quiet c = true) : SSim c.st d.st ∧ sh d = sh c :=
+  ⟨(quiet_inStep h hq).core.st.ssim, (quiet_inStep h hq).core.sh.symm⟩
+
+/-- erasure of the pause and play requests of a history -/
+def erasePP : List Ev → List Ev
+  | [] => []
+  | .pause :: es => erasePP es
+  | .play :: es => erasePP es
+  | e :: es => e :: erasePP es
+
+def isTick : Ev → Bool
+  | .tick => true
+  | _ => false
+
+theorem evImage_mem (c : Cfg) (x e : Ev) (h : e ∈ evImage c x) : e ≠ .pause ∧ e ≠ .play := by
+  cases x with
+  | pause => simp [evImage] at h
+  | play => simp [evImage] at h
+  | tick =>
+    simp only [evImage] at h
+    split at h
+    · cases h
+    · simp at h; subst h; exact ⟨(by intro h; cases h), (by intro h; cases h)⟩
+  | _ => simp [evImage] at h; subst h; exact ⟨(by intro h; cases h), (by intro h; cases h)⟩
+
+theorem unpaused_no_pp (P : Prog) : ∀ (evs : List Ev) (c : Cfg), ∀ e ∈ unpaused P c evs, e ≠ .pause ∧ e ≠ .play := by
+  intro evs
+  induction evs with
+  | nil => intro c e he; simp [unpaused] at he
+  | cons x rest ih =>
+    intro c e he
+    simp only [unpaused, List.mem_append] at he
+    rcases he with he | he
+    · exact evImage_mem c x e he
+    · exact ih _ e he
+
+theorem unpaused_sublist (P : Prog) : ∀ (evs : List Ev) (c : Cfg), (unpaused P c evs).Sublist (erasePP evs) := by
+  intro evs
+  induction evs with
+  | nil => intro c; exact List.Sublist.slnil
+  | cons x rest ih =>
+    intro c
+    have := ih (step P c x).1
+    cases x with
+    | pause => simpa [unpaused, evImage, erasePP] using this
+    | play => simpa [unpaused, evImage, erasePP] using this
+    | tick =>
+      simp only [unpaused, evImage, erasePP]
+      split
+      · exact List.Sublist.cons _ this
+      · exact List.Sublist.cons_cons _ this
+    | tickCb cb => exact List.Sublist.cons_cons _ this
+    | kill => exact List.Sublist.cons_cons _ this
+    | resume v => exact List.Sublist.cons_cons _ this
+    | fail e => exact List.Sublist.cons_cons _ this
+    | cancelFut => exact List.Sublist.cons_cons _ this
+    | complete f o => exact List.Sublist.cons_cons _ this
+    | callSoon r => exact List.Sublist.cons_cons _ this
+
+theorem unpaused_nonticks (P : Prog) : ∀ (evs : List Ev) (c : Cfg),
+    (unpaused P c evs).filter (fun e => !isTick e) = (erasePP evs).filter (fun e => !isTick e) := by
+  intro evs
+  induction evs with
+  | nil => intro c; rfl
+  | cons x rest ih =>
+    intro c
+    have := ih (step P c x).1
+    cases x with
+    | pause => simpa [unpaused, evImage, erasePP] using this
+    | play => simpa [unpaused, evImage, erasePP] using this
+    | tick =>
+      simp only [unpaused, evImage, erasePP]
+      split <;> simpa [isTick] using this
+    | tickCb cb => simpa [unpaused, evImage, erasePP, isTick] using this
+    | kill => simpa [unpaused, evImage, erasePP, isTick] using this
+    | resume v => simpa [unpaused, evImage, erasePP, isTick] using this
+    | fail e => simpa [unpaused, evImage, erasePP, isTick] using this
+    | cancelFut => simpa [unpaused, evImage, erasePP, isTick] using this
+    | complete f o => simpa [unpaused, evImage, erasePP, isTick] using this
+    | callSoon r => simpa [unpaused, evImage, erasePP, isTick] using this
+
 end PMF
